@@ -428,7 +428,14 @@ impl Gen {
                     Op::n(TryReserve, self.capacity_arg(mon)).with_v(inject)
                 }
             }
-            ShrinkTo => Op::n(ShrinkTo, self.capacity_arg(mon)),
+            ShrinkTo => {
+                // floors nobody can reach (a no-op by contract), mostly while a resize is in flight
+                if self.rng.chance(1, if split { 6 } else { 20 }) {
+                    Op::n(ShrinkTo, self.huge_arg(mon))
+                } else {
+                    Op::n(ShrinkTo, self.capacity_arg(mon))
+                }
+            }
             WithCapacity => Op::n(WithCapacity, *self.rng.pick(&[0, 1, 3, 7, 14, 28, 29, 56, 100])),
             CloneFrom => {
                 let n = self.rng.usize(40);
